@@ -93,6 +93,20 @@ impl GenericTokenBucket {
     }
 }
 
+/// Verification hook (built only with `--cfg erbium_verif`): the stored
+/// timestamp and the two constants.
+#[cfg(erbium_verif)]
+impl GenericTokenBucket {
+    pub const VERIF_MAX_TOKENS: u32 = Self::MAX_TOKENS;
+    pub const VERIF_TOKENS_PER_SECOND: u32 = Self::TOKENS_PER_SECOND;
+    pub fn verif_state(&self) -> u32 {
+        self.0
+    }
+    pub fn verif_with_state(z: u32) -> Self {
+        Self(z)
+    }
+}
+
 impl Default for GenericTokenBucket {
     fn default() -> Self {
         Self::new()
